@@ -3,7 +3,7 @@
   caused it (from a state satisfying the roles invariant).
 -/
 import DymVerif.Lemmas.CoreRolesMark
-namespace DymVerif.Core
+namespace DymVerif.Core.Roles
 
 theorem apply_classify {s s' : St} {o : Op} {id : Nat} {r r' : Rollapp} (h : Roles s)
     (e : apply s o = .ok s') (hr : getRa s id = some r) (hr' : getRa s' id = some r')
@@ -114,4 +114,4 @@ theorem apply_classify {s s' : St} {o : Op} {id : Nat} {r r' : Rollapp} (h : Rol
   | begin_ dt => simp only [apply] at e; injection e with e; subst e; exact contra (beginBlock_psame s dt id)
   | end_ f => simp only [apply] at e; injection e with e; subst e; exact contra ((endBlock_frame h.core.uniq).psame id)
 
-end DymVerif.Core
+end DymVerif.Core.Roles
